@@ -45,6 +45,12 @@ def handle(jr, R, o, relation, path, replay_fn, sig):
     if o.status == "sat" and o.expect == "unsat":
         leaves = C.leaf_values(R, o.model)
         rep = replay_fn(relation, leaves)
+        if not rep.get("reproduced") and not relation.startswith("exception"):
+            for cand in C.alternative_leaves(R, path, leaves):
+                rep2 = replay_fn(relation, cand)
+                if rep2.get("reproduced"):
+                    leaves, rep = cand, dict(rep2, leaves_from="perturbed solver model (same path)")
+                    break
         if rep.get("reproduced"):
             payload = {"property": PROP, "kernel": jr["kernel"], "relation": relation, "signature": sig, "leaves": leaves, "path": path.describe() if path else None, "replay_result": rep,
                        "replay_call": {"fn": "harness.C02:replay_entry", "args": {"kernel": jr["kernel"], "signature": sig, "relation": relation, "leaves": leaves}}}
@@ -415,7 +421,7 @@ def configs(tier):
                     cfgs.append({"type": "spline", "kind": kind, "K": K, "mode": mode, "box": box, "order": order, "timeout": t, "decide_timeout": 8 if tier == "quick" else 30})
     for order in ("f", "i", "fi"):
         cfgs.append({"type": "spline", "kind": "rq", "K": 2, "mode": "box", "box": "unit", "floors": True, "order": order, "timeout": t, "decide_timeout": 8})
-    for c in CS.cases_for(tier):
+    for c in CS.cases_for(tier, with_history=True):
         spline_based = "Piecewise" in c.name or "CompositeCDF" in c.name
         if "PiecewiseCubic" in c.name or ("PiecewiseQuadratic" in c.name and tier == "quick"):
             # the quadratic inverse's discriminant obligation takes ~1 min per feature even at function level
